@@ -360,22 +360,20 @@ let visit_stmts_with rec0 stmts s =
   ((app (pending_decls s1) stmts'), (leave_scope s s1))
 
 (** val visit :
-    env -> (node -> st -> node * st) -> (node -> st -> node * st) -> (node ->
-    st -> st) -> mode -> node -> st -> node * st **)
+    env -> (node -> st -> node * st) -> (node -> st -> node * st) -> mode ->
+    node -> st -> node * st **)
 
-let rec visit e hook_call hook_declarator hook_ts_decl m n s =
+let rec visit e hook_call hook_declarator m n s =
   match n with
   | NArr l ->
     (match m with
      | MStmts ->
-       let (l', s0) =
-         visit_stmts_with (visit e hook_call hook_declarator hook_ts_decl) l s
+       let (l', s0) = visit_stmts_with (visit e hook_call hook_declarator) l s
        in
        ((NArr l'), s0)
      | _ ->
        let (l', s0) =
-         visit_list_with (visit e hook_call hook_declarator hook_ts_decl)
-           MExpr l s
+         visit_list_with (visit e hook_call hook_declarator) MExpr l s
        in
        ((NArr l'), s0))
   | NObj fields ->
@@ -392,13 +390,12 @@ let rec visit e hook_call hook_declarator hook_ts_decl m n s =
          ((Ascii (true, false, true, false, false, true, true, false)),
          EmptyString)))))))))))))))))))) (ntype n)
     then let (fields', s0) =
-           visit_list_with (visit e hook_call hook_declarator hook_ts_decl)
-             MSwitch fields s
+           visit_list_with (visit e hook_call hook_declarator) MSwitch fields
+             s
          in
          ((NObj fields'), s0)
     else let (fields', s0) =
-           visit_list_with (visit e hook_call hook_declarator hook_ts_decl)
-             MExpr fields s
+           visit_list_with (visit e hook_call hook_declarator) MExpr fields s
          in
          let n' = NObj fields' in
          let ty = ntype n in
@@ -449,77 +446,7 @@ let rec visit e hook_call hook_declarator hook_ts_decl m n s =
                    true, true, true, false)),
                    EmptyString)))))))))))))))))))))))))))))))))))) ty
               then hook_declarator n' s0
-              else if (||)
-                        (sq (String ((Ascii (false, false, true, false, true,
-                          false, true, false)), (String ((Ascii (true, true,
-                          false, false, true, true, true, false)), (String
-                          ((Ascii (true, false, false, true, false, false,
-                          true, false)), (String ((Ascii (false, true, true,
-                          true, false, true, true, false)), (String ((Ascii
-                          (false, false, true, false, true, true, true,
-                          false)), (String ((Ascii (true, false, true, false,
-                          false, true, true, false)), (String ((Ascii (false,
-                          true, false, false, true, true, true, false)),
-                          (String ((Ascii (false, true, true, false, false,
-                          true, true, false)), (String ((Ascii (true, false,
-                          false, false, false, true, true, false)), (String
-                          ((Ascii (true, true, false, false, false, true,
-                          true, false)), (String ((Ascii (true, false, true,
-                          false, false, true, true, false)), (String ((Ascii
-                          (false, false, true, false, false, false, true,
-                          false)), (String ((Ascii (true, false, true, false,
-                          false, true, true, false)), (String ((Ascii (true,
-                          true, false, false, false, true, true, false)),
-                          (String ((Ascii (false, false, true, true, false,
-                          true, true, false)), (String ((Ascii (true, false,
-                          false, false, false, true, true, false)), (String
-                          ((Ascii (false, true, false, false, true, true,
-                          true, false)), (String ((Ascii (true, false, false,
-                          false, false, true, true, false)), (String ((Ascii
-                          (false, false, true, false, true, true, true,
-                          false)), (String ((Ascii (true, false, false, true,
-                          false, true, true, false)), (String ((Ascii (true,
-                          true, true, true, false, true, true, false)),
-                          (String ((Ascii (false, true, true, true, false,
-                          true, true, false)),
-                          EmptyString))))))))))))))))))))))))))))))))))))))))))))
-                          ty)
-                        (sq (String ((Ascii (false, false, true, false, true,
-                          false, true, false)), (String ((Ascii (true, true,
-                          false, false, true, true, true, false)), (String
-                          ((Ascii (false, false, true, false, true, false,
-                          true, false)), (String ((Ascii (true, false, false,
-                          true, true, true, true, false)), (String ((Ascii
-                          (false, false, false, false, true, true, true,
-                          false)), (String ((Ascii (true, false, true, false,
-                          false, true, true, false)), (String ((Ascii (true,
-                          false, false, false, false, false, true, false)),
-                          (String ((Ascii (false, false, true, true, false,
-                          true, true, false)), (String ((Ascii (true, false,
-                          false, true, false, true, true, false)), (String
-                          ((Ascii (true, false, false, false, false, true,
-                          true, false)), (String ((Ascii (true, true, false,
-                          false, true, true, true, false)), (String ((Ascii
-                          (false, false, true, false, false, false, true,
-                          false)), (String ((Ascii (true, false, true, false,
-                          false, true, true, false)), (String ((Ascii (true,
-                          true, false, false, false, true, true, false)),
-                          (String ((Ascii (false, false, true, true, false,
-                          true, true, false)), (String ((Ascii (true, false,
-                          false, false, false, true, true, false)), (String
-                          ((Ascii (false, true, false, false, true, true,
-                          true, false)), (String ((Ascii (true, false, false,
-                          false, false, true, true, false)), (String ((Ascii
-                          (false, false, true, false, true, true, true,
-                          false)), (String ((Ascii (true, false, false, true,
-                          false, true, true, false)), (String ((Ascii (true,
-                          true, true, true, false, true, true, false)),
-                          (String ((Ascii (false, true, true, true, false,
-                          true, true, false)),
-                          EmptyString))))))))))))))))))))))))))))))))))))))))))))
-                          ty)
-                   then (n', (hook_ts_decl n' s0))
-                   else (n', s0)
+              else (n', s0)
   | Field (k, v) ->
     let m' =
       match m with
@@ -540,56 +467,46 @@ let rec visit e hook_call hook_declarator hook_ts_decl m n s =
         else MExpr
       | _ -> MExpr
     in
-    let (v', s0) = visit e hook_call hook_declarator hook_ts_decl m' v s in
+    let (v', s0) = visit e hook_call hook_declarator m' v s in
     ((Field (k, v')), s0)
   | BIdent (sym, c, o, t) ->
-    let (t', s0) = visit e hook_call hook_declarator hook_ts_decl MExpr t s in
+    let (t', s0) = visit e hook_call hook_declarator MExpr t s in
     ((BIdent (sym, c, o, t')), s0)
   | Arr elems ->
     let (e', s0) =
-      visit_list_with (visit e hook_call hook_declarator hook_ts_decl) MExpr
-        elems s
+      visit_list_with (visit e hook_call hook_declarator) MExpr elems s
     in
     ((Arr e'), s0)
   | Elem (sp, e0) ->
-    let (e', s0) = visit e hook_call hook_declarator hook_ts_decl MExpr e0 s
-    in
+    let (e', s0) = visit e hook_call hook_declarator MExpr e0 s in
     ((Elem (sp, e')), s0)
   | Obj props ->
     let (p', s0) =
-      visit_list_with (visit e hook_call hook_declarator hook_ts_decl) MExpr
-        props s
+      visit_list_with (visit e hook_call hook_declarator) MExpr props s
     in
     ((Obj p'), s0)
   | KV (k, v) ->
-    let (k', s0) = visit e hook_call hook_declarator hook_ts_decl MExpr k s in
-    let (v', s1) = visit e hook_call hook_declarator hook_ts_decl MExpr v s0
-    in
+    let (k', s0) = visit e hook_call hook_declarator MExpr k s in
+    let (v', s1) = visit e hook_call hook_declarator MExpr v s0 in
     ((KV (k', v')), s1)
   | Computed e0 ->
-    let (e', s0) = visit e hook_call hook_declarator hook_ts_decl MExpr e0 s
-    in
+    let (e', s0) = visit e hook_call hook_declarator MExpr e0 s in
     ((Computed e'), s0)
   | Spread e0 ->
-    let (e', s0) = visit e hook_call hook_declarator hook_ts_decl MExpr e0 s
-    in
+    let (e', s0) = visit e hook_call hook_declarator MExpr e0 s in
     ((Spread e'), s0)
   | Call (sy, c, f, args, ta) ->
-    let (f', s0) = visit e hook_call hook_declarator hook_ts_decl MExpr f s in
+    let (f', s0) = visit e hook_call hook_declarator MExpr f s in
     let (args', s1) =
-      visit_list_with (visit e hook_call hook_declarator hook_ts_decl) MExpr
-        args s0
+      visit_list_with (visit e hook_call hook_declarator) MExpr args s0
     in
     hook_call (Call (sy, c, f', args', ta)) s1
   | Arrow (c, params, body, a, g, tp, rt) ->
     let (params', s0) =
-      visit_list_with (visit e hook_call hook_declarator hook_ts_decl) MExpr
-        params s
+      visit_list_with (visit e hook_call hook_declarator) MExpr params s
     in
     let s1 = enter_scope s0 in
-    let (body', s2) =
-      visit e hook_call hook_declarator hook_ts_decl MExpr body s1
-    in
+    let (body', s2) = visit e hook_call hook_declarator MExpr body s1 in
     let body'' =
       match arrow_decls s2 with
       | [] -> body'
@@ -605,59 +522,44 @@ let rec visit e hook_call hook_declarator hook_ts_decl m n s =
      | BIdent (sym, _, _, _) ->
        let outer = s.assign_left in
        let s0 = set_assign_left (Some sym) s in
-       let (l', s1) =
-         visit e hook_call hook_declarator hook_ts_decl MExpr l s0
-       in
-       let (r', s2) =
-         visit e hook_call hook_declarator hook_ts_decl MExpr r s1
-       in
+       let (l', s1) = visit e hook_call hook_declarator MExpr l s0 in
+       let (r', s2) = visit e hook_call hook_declarator MExpr r s1 in
        ((Assign (op, l', r')), (set_assign_left outer s2))
      | _ ->
-       let (l', s0) = visit e hook_call hook_declarator hook_ts_decl MExpr l s
-       in
-       let (r', s1) =
-         visit e hook_call hook_declarator hook_ts_decl MExpr r s0
-       in
+       let (l', s0) = visit e hook_call hook_declarator MExpr l s in
+       let (r', s1) = visit e hook_call hook_declarator MExpr r s0 in
        ((Assign (op, l', r')), s1))
   | Paren e0 ->
-    let (e', s0) = visit e hook_call hook_declarator hook_ts_decl MExpr e0 s
-    in
+    let (e', s0) = visit e hook_call hook_declarator MExpr e0 s in
     ((Paren e'), s0)
   | Cond (t, c, a) ->
-    let (t', s0) = visit e hook_call hook_declarator hook_ts_decl MExpr t s in
-    let (c', s1) = visit e hook_call hook_declarator hook_ts_decl MExpr c s0
-    in
-    let (a', s2) = visit e hook_call hook_declarator hook_ts_decl MExpr a s1
-    in
+    let (t', s0) = visit e hook_call hook_declarator MExpr t s in
+    let (c', s1) = visit e hook_call hook_declarator MExpr c s0 in
+    let (a', s2) = visit e hook_call hook_declarator MExpr a s1 in
     ((Cond (t', c', a')), s2)
   | Bin (op, l, r) ->
-    let (l', s0) = visit e hook_call hook_declarator hook_ts_decl MExpr l s in
-    let (r', s1) = visit e hook_call hook_declarator hook_ts_decl MExpr r s0
-    in
+    let (l', s0) = visit e hook_call hook_declarator MExpr l s in
+    let (r', s1) = visit e hook_call hook_declarator MExpr r s0 in
     ((Bin (op, l', r')), s1)
   | Unary (op, a) ->
-    let (a', s0) = visit e hook_call hook_declarator hook_ts_decl MExpr a s in
+    let (a', s0) = visit e hook_call hook_declarator MExpr a s in
     ((Unary (op, a')), s0)
   | Member (o, p) ->
-    let (o', s0) = visit e hook_call hook_declarator hook_ts_decl MExpr o s in
-    let (p', s1) = visit e hook_call hook_declarator hook_ts_decl MExpr p s0
-    in
+    let (o', s0) = visit e hook_call hook_declarator MExpr o s in
+    let (p', s1) = visit e hook_call hook_declarator MExpr p s0 in
     ((Member (o', p')), s1)
   | Block (c, stmts) ->
     let (stmts', s0) =
-      visit_stmts_with (visit e hook_call hook_declarator hook_ts_decl) stmts
-        s
+      visit_stmts_with (visit e hook_call hook_declarator) stmts s
     in
     ((Block (c, stmts')), s0)
   | JsxE (name, attrs, sc, ta, children, closing) ->
     let (attrs', s0) =
-      visit_jsx_list_with (visit e hook_call hook_declarator hook_ts_decl)
-        attrs s
+      visit_jsx_list_with (visit e hook_call hook_declarator) attrs s
     in
     let (attrs'0, s1) = decouple_attrs attrs' s0 in
     let (children', s2) =
-      visit_jsx_list_with (visit e hook_call hook_declarator hook_ts_decl)
-        children s1
+      visit_jsx_list_with (visit e hook_call hook_declarator) children s1
     in
     let n' = JsxE (name, attrs'0, sc, ta, children', closing) in
     (match m with
@@ -665,25 +567,20 @@ let rec visit e hook_call hook_declarator hook_ts_decl m n s =
      | _ -> lower_el e n' s2)
   | JsxF children ->
     let (children', s0) =
-      visit_jsx_list_with (visit e hook_call hook_declarator hook_ts_decl)
-        children s
+      visit_jsx_list_with (visit e hook_call hook_declarator) children s
     in
     let n' = JsxF children' in
     (match m with
      | MNoLower -> (n', s0)
      | _ -> lower_el e n' s0)
   | JAttr (nm, v) ->
-    let (v', s0) =
-      visit e hook_call hook_declarator hook_ts_decl (jsx_item_mode v) v s
-    in
+    let (v', s0) = visit e hook_call hook_declarator (jsx_item_mode v) v s in
     ((JAttr (nm, v')), s0)
   | JExprC e0 ->
-    let (e', s0) = visit e hook_call hook_declarator hook_ts_decl MExpr e0 s
-    in
+    let (e', s0) = visit e hook_call hook_declarator MExpr e0 s in
     ((JExprC e'), s0)
   | JSpreadChild e0 ->
-    let (e', s0) = visit e hook_call hook_declarator hook_ts_decl MExpr e0 s
-    in
+    let (e', s0) = visit e hook_call hook_declarator MExpr e0 s in
     ((JSpreadChild e'), s0)
   | _ -> (n, s)
 
@@ -1477,7 +1374,7 @@ let finish_module items s =
     env -> (node -> st -> node * st) -> (node -> st -> node * st) -> (node ->
     st -> st) -> node -> node * st **)
 
-let transform_module e hook_call hook_declarator hook_ts_decl m = match m with
+let transform_module e hook_call hook_declarator collect_ts_decls m = match m with
 | NObj l ->
   (match l with
    | [] -> (m, st0)
@@ -1497,14 +1394,14 @@ let transform_module e hook_call hook_declarator hook_ts_decl m = match m with
                     (match l2 with
                      | [] ->
                        let s = search_pragmas e.e_comments st0 in
-                       let (items', s0) =
-                         visit_list_with
-                           (visit e hook_call hook_declarator hook_ts_decl)
-                           MExpr items s
+                       let s0 = collect_ts_decls m s in
+                       let (items', s1) =
+                         visit_list_with (visit e hook_call hook_declarator)
+                           MExpr items s0
                        in
-                       let (items'', s1) = finish_module items' s0 in
+                       let (items'', s2) = finish_module items' s1 in
                        ((NObj ((Field (kt, ty)) :: ((Field (kb, (NArr
-                       items''))) :: (interp :: [])))), s1)
+                       items''))) :: (interp :: [])))), s2)
                      | _ :: _ -> (m, st0)))
                | _ -> (m, st0))
             | _ -> (m, st0)))
